@@ -121,7 +121,16 @@ def run_lazy(ctx, h):
            "rcm_v": lambda: rcm.rcm_vertex_order(vr, nets),
            "rcm_c": lambda: rcm.rcm_chip_order(machine),
            "hil_c": lambda: hilbert.hilbert_chip_order(machine)}
-    eager = {k: list(f()) for k, f in fns.items()}
+    try:
+        with c02.common.cpu_limit(10 if c02._HANGS[0] < 4 else 2):
+            eager = {k: list(f()) for k, f in fns.items()}
+    except c02.common.ImplHang as e:
+        # the order functions terminate on every input (bfsOrder_terminates, rcmVertexOrder_terminates,
+        # rcmChipOrder_terminates); the wrapper placers consume them completely - the placer runs report the violation
+        c02._HANGS[0] += 1
+        ctx.mismatch("c02.did-not-return", "an order function consumed eagerly did not return: %s" % e, desc)
+        ctx.case(desc, False)
+        return
     rng = _random.Random(case["lazy_seed"])
     gens = [[k, fns[k](), [], False] for k in sorted(fns) for _ in (0, 1)]      # name, generator, items, done
     twin = rng.randrange(len(gens))
@@ -396,12 +405,15 @@ def run_one(ctx, h):
 
 
 def run_harden(ctx):
+    from harness import c02
     rng = ctx.rng
     n_lazy, n_scale, n_k = ctx.scale(40, 400), ctx.scale(2, 8), ctx.scale(12, 100)
     if ctx.extended:
         n_lazy, n_k = n_lazy * 4, n_k * 4
     for _ in range(n_lazy):
         run_one(ctx, gen_lazy(rng))
+        if c02.hang_verdict_reached(ctx):       # many calls did not return and the violation is recorded
+            break
     for _ in range(n_k):
         run_one(ctx, gen_two_kernels(rng))
     for _ in range(n_scale):
